@@ -195,7 +195,9 @@ def _plan_job(args):
                 x['obs'] = plan['obs'](schema, x['acts'], rnd)
     if not runs:
         raise common.MachineryError('plan %s produced no behaviours' % plan['name'])
-    traces, verdicts, st = replay_validate(schema, runs, header={'opt': plan.get('opt', {})}, genkind=genkind,
+    # (every run shares its process with a metamodel of the same class / attribute / association names and other attribute
+    # types - adapter shadow_prelude: metamodels are independent, so nothing of it may show)
+    traces, verdicts, st = replay_validate(schema, runs, header={'opt': dict(plan.get('opt') or {}, shadow=True)}, genkind=genkind,
                                            userids=userids)
     return plan, bound, r, g, covered, total, runs, verdicts, st
 
